@@ -40,7 +40,8 @@ def run_replay(spec, scratch):
     confirmed = False
     for args in spec['runs']:
         try:
-            p = subprocess.run([r] + [str(a) for a in args], capture_output=True, text=True, timeout=300)
+            env = dict(os.environ, XDG_DATA_HOME=os.path.join(scratch, 'xdg'))        # FFTW wisdom written by the real wrappers stays in the scratch directory
+            p = subprocess.run([r] + [str(a) for a in args], capture_output=True, text=True, timeout=900, env=env)
             outs.append({'args': [str(a) for a in args], 'exit': p.returncode, 'stdout': p.stdout[-2000:], 'stderr': p.stderr[-1000:]})
             if p.returncode == 1:
                 confirmed = True
